@@ -131,6 +131,46 @@ Definition parse_set_value (k : skind) (t : sv_text) : res (list N) :=
   end.
 
 (* ------------------------------------------------------------------------------------------ *)
+(* The same function after fix_2.patch ("numbers that do not fit the type are refused"):       *)
+(* every `as iN` / `as uN` became `iN::try_from` / `uN::try_from` (Err when out of range), and *)
+(* the numeric char form goes through u32::try_from + char::from_u32.                          *)
+(* ------------------------------------------------------------------------------------------ *)
+Definition E_RANGE : N := 34.
+
+Definition fits_s (w : nat) (z : Z) : bool :=
+  ((- Z.of_N (2 ^ (8 * N.of_nat w - 1)) <=? z) && (z <? Z.of_N (2 ^ (8 * N.of_nat w - 1))))%Z.
+Definition fits_u (w : nat) (z : Z) : bool :=
+  ((0 <=? z) && (z <? Z.of_N (2 ^ (8 * N.of_nat w))))%Z.
+Definition is_scalar_value (z : Z) : bool :=
+  (((0 <=? z) && (z <? 55296)) || ((57344 <=? z) && (z <=? 1114111)))%Z.
+
+Definition try_s (w : nat) (z : Z) : res (list N) := if fits_s w z then Ok (to_le_bytes_s w z) else Err E_RANGE.
+Definition try_u (w : nat) (z : Z) : res (list N) := if fits_u w z then Ok (to_le_bytes_u w (Z.to_N z)) else Err E_RANGE.
+
+Definition parse_set_value_fix2 (k : skind) (t : sv_text) : res (list N) :=
+  match k with
+  | KI8 => z <- parse_int_i128 t ;; try_s 1 z
+  | KU8 => z <- parse_int_u128 t ;; try_u 1 z
+  | KI16 => z <- parse_int_i128 t ;; try_s 2 z
+  | KU16 => z <- parse_int_u128 t ;; try_u 2 z
+  | KI32 => z <- parse_int_i128 t ;; try_s 4 z
+  | KU32 => z <- parse_int_u128 t ;; try_u 4 z
+  | KI64 => z <- parse_int_i128 t ;; try_s 8 z
+  | KU64 => z <- parse_int_u128 t ;; try_u 8 z
+  | KI128 => z <- parse_int_i128 t ;; Ok (to_le_bytes_s 16 z)
+  | KU128 => z <- parse_int_u128 t ;; Ok (to_le_bytes_u 16 (Z.to_N z))
+  | KIsize => z <- parse_int_i128 t ;; try_s 8 z
+  | KUsize => z <- parse_int_u128 t ;; try_u 8 z
+  | KChar =>
+      match tx_char t with
+      | CtOther => z <- parse_int_u128 t ;;
+                   if is_scalar_value z then Ok (to_le_bytes_u 4 (Z.to_N z)) else Err E_RANGE
+      | _ => parse_set_value k t
+      end
+  | _ => parse_set_value k t
+  end.
+
+(* ------------------------------------------------------------------------------------------ *)
 (* Specification                                                                                *)
 (* ------------------------------------------------------------------------------------------ *)
 (* How the debuggee (and any later read) understands the bytes of a variable of kind k: integers by
@@ -197,28 +237,61 @@ Record sv_case := SvCase {
 }.
 
 Definition zopt_is (a : option Z) (z : Z) : bool := match a with Some x => Z.eqb x z | None => false end.
+Definition zopt_eqb (a b : option Z) : bool :=
+  match a, b with Some x, Some y => Z.eqb x y | None, None => true | _, _ => false end.
+Definition res_opt (r : res Z) : option Z := match r with Ok v => Some v | _ => None end.
 
-Definition setvalue_check (c : sv_case) : N :=
+(* What the adapter shows after the request: (reply, reread, refetch).
+   At 7fbf91e: setVariable stores the *text of the request* as the entry's value (data.rs:177) and answers with
+   it; setExpression answers with a fresh read (data.rs:365-376) but leaves the listing of the scope as it was
+   read before the write (frame.rs:126-138 scope_cache; nothing refreshes it). *)
+Definition shown_head (c : sv_case) : option Z * option Z * option Z :=
+  let bv := res_opt (decode_value (c_kind c) (c_before c)) in
+  let av := res_opt (decode_value (c_kind c) (c_after c)) in
+  if c_success c then
+    match c_via c with
+    | ViaSetVariable => let r := requested (c_kind c) (c_text c) in (r, r, r)
+    | ViaSetExpression => (av, bv, bv)
+    end
+  else (None, bv, bv).
+
+(* after fix_1.patch: every listing that belongs to a scope is read again after a write *)
+Definition shown_fix1 (c : sv_case) : option Z * option Z * option Z :=
+  let bv := res_opt (decode_value (c_kind c) (c_before c)) in
+  let av := res_opt (decode_value (c_kind c) (c_after c)) in
+  if c_success c then (av, av, av) else (None, bv, bv).
+
+(* SPEC of one request, over what was observed from outside the debugger *)
+Definition setvalue_spec_ok (c : sv_case) : bool :=
   let k := c_kind c in
+  c_canaries c && c_program_canaries c && Nat.eqb (length (c_after c)) (kind_size k) &&
+  match decode_value k (c_after c) with
+  | Ok v =>
+      Z.eqb (c_program c) v                                   (* the program sees what memory holds *)
+      && zopt_is (c_reread c) v && zopt_is (c_refetch c) v     (* a later read returns what memory holds *)
+      && (if c_success c
+          then zopt_is (c_reply c) v
+               && match requested k (c_text c) with
+                  | Some r => representableb k r && Z.eqb v r  (* ... and that is the value that was asked for *)
+                  | None => false
+                  end
+          else list_eqb N.eqb (c_after c) (c_before c))        (* a refused request changes nothing *)
+  | _ => false
+  end.
+
+Definition setvalue_check_gen (parse : skind -> sv_text -> res (list N))
+                              (shown : sv_case -> option Z * option Z * option Z) (c : sv_case) : N :=
+  let '(rp, rr, rf) := shown c in
   let model_ok :=
-    match parse_set_value k (c_text c) with
+    match parse (c_kind c) (c_text c) with
     | Ok bs => c_success c && list_eqb N.eqb (c_after c) bs
     | Err _ => negb (c_success c) && list_eqb N.eqb (c_after c) (c_before c)
     | _ => false
-    end in
-  let spec_ok :=
-    c_canaries c && c_program_canaries c && Nat.eqb (length (c_after c)) (kind_size k) &&
-    match decode_value k (c_after c) with
-    | Ok v =>
-        Z.eqb (c_program c) v                                   (* the program sees what memory holds *)
-        && zopt_is (c_reread c) v && zopt_is (c_refetch c) v     (* a later read returns what memory holds *)
-        && (if c_success c
-            then zopt_is (c_reply c) v
-                 && match requested k (c_text c) with
-                    | Some r => representableb k r && Z.eqb v r  (* ... and that is the value written *)
-                    | None => false
-                    end
-            else list_eqb N.eqb (c_after c) (c_before c))        (* a refused request changes nothing *)
-    | _ => false
-    end in
-  verdict model_ok spec_ok.
+    end
+    && zopt_eqb (c_reply c) rp && zopt_eqb (c_reread c) rr && zopt_eqb (c_refetch c) rf in
+  verdict model_ok (setvalue_spec_ok c).
+
+(* the code at 7fbf91e *)
+Definition setvalue_check_head : sv_case -> N := setvalue_check_gen parse_set_value shown_head.
+(* the code with fix_1.patch and fix_2.patch *)
+Definition setvalue_check : sv_case -> N := setvalue_check_gen parse_set_value_fix2 shown_fix1.
